@@ -163,6 +163,38 @@ Definition c_run_items (impl : bool) (chain : list sprog) (script : list (option
                (compile_all 0 chain) (ccore KItem script))
             c items cstate0.
 
+(** Nested: the server message chain whose innermost handler, handleRequest, runs the
+    batch-item chain for the (single) batch item.  Batch-item positions are logged as
+    100, 101, ... *)
+Definition shift_ev (d : nat) (e : cevent) : cevent :=
+  match e with
+  | EvEnter i c m => EvEnter (d + i) c m
+  | EvBack i r => EvBack (d + i) r
+  | EvRet i r => EvRet (d + i) r
+  | EvPanic i => EvPanic (d + i)
+  | EvCore c m => EvCore c m
+  end.
+
+Definition nested_core (impl : bool) (ichain : list sprog) (script : list (option Z)) : kont cctx cmsg cres cstate :=
+  fun c m s =>
+    if poison m then (Ok (None, Some 4), s, [])
+    else
+      match (if impl then run_impl_item else run_spec_item) c_item_for c_item_error c_err_no_response
+              (compile_all 100 ichain) (ccore KItem script) c m s with
+      | (Ok p, s', t) => (Ok (Some p, None), s', map (shift_ev 100) t)
+      | (Err, s', t) => (Err, s', map (shift_ev 100) t)
+      | (Panic, s', t) => (Panic, s', map (shift_ev 100) t)
+      | (OutOfFuel, s', t) => (OutOfFuel, s', map (shift_ev 100) t)
+      end.
+
+Definition c_run_nested (impl : bool) (mchain ichain : list sprog) (script : list (option Z)) (c : cctx) (m : cmsg) :=
+  let c' := c_new_batch_ctx c m in
+  let mws := compile_all 0 mchain in
+  match (if impl then server_chain (S (length mws)) mws (nested_core impl ichain script) 0
+         else spec_from 0 mws (nested_core impl ichain script)) c' m cstate0 with
+  | (o, s', t) => (handle_request_result c_message_error c' m o, s', t)
+  end.
+
 (** The code before the fix: commits. *)
 Definition c_cursor_client (chain : list sprog) (c : cctx) (m : cmsg) :=
   run_cursor true (compile_all 0 chain) (ccore KClient []) c m cstate0.
@@ -221,6 +253,16 @@ Fixpoint cresps_eqb (a b : list cresp) : bool :=
 Definition row_client : Type := (list sprog * list Z * Z * (res cres * Z * list cevent))%type.
 Definition row_server : Type := (list sprog * list (option Z) * list Z * Z * (res (option cresp) * Z * list cevent))%type.
 Definition row_items : Type := (list sprog * list (option Z) * list Z * list Z * (res (list cresp) * Z * list cevent))%type.
+
+Definition row_nested : Type := (list sprog * list sprog * list (option Z) * list Z * Z * (res (option cresp) * Z * list cevent))%type.
+
+Definition row_nested_ok (mode : nat) (r : row_nested) : bool :=
+  match r with
+  | (mchain, ichain, script, tags, m, (oo, on, ot)) =>
+      match c_run_nested (match mode with 1%nat => false | _ => true end) mchain ichain script (tags, None) m with
+      | (o, (n, _), t) => res_eqb ocresp_eqb o oo && (n =? on) && trace_eqb t ot
+      end
+  end.
 
 Definition row_client_ok (mode : nat) (r : row_client) : bool :=
   match r with
